@@ -32,6 +32,11 @@ class _VSelector:
 
     def select(self, timeout=None):
         loop = self._loop
+        if _WATCHDOG["draining"] and _WATCHDOG.get("drain_deadline") is not None:
+            import time as _time
+
+            if _time.monotonic() > _WATCHDOG["drain_deadline"]:
+                raise WallClockExceeded("leftover tasks did not end within the budget of the clean-up")
         if _WATCHDOG["fired"] and not _WATCHDOG["draining"]:
             # the watchdog fired inside some task, which only ended THAT task: a run that keeps yielding (a client that
             # lists a directory inside itself for ever) is ended here, from the loop itself
@@ -183,7 +188,7 @@ class VLoop(asyncio.SelectorEventLoop):
         return self.run_until_complete(runner())
 
 
-_WATCHDOG = {"fired": 0, "draining": False}
+_WATCHDOG = {"fired": 0, "draining": False, "drain_deadline": None}
 
 
 class WallClockExceeded(BaseException):
@@ -246,18 +251,30 @@ def run(coro_fn, *args, **kw):
     finally:
         _disarm_watchdog(old)
         _WATCHDOG["draining"] = True
+        # the leftovers are cancelled so that the loop closes quietly - but code that swallows its cancellation, or goes on
+        # for ever inside its clean-up, must not keep this process: the drain has a wall-clock budget of its own, enforced
+        # from the loop (select hook) and by the alarm (for code that never yields)
+        import time as _time
+
+        _WATCHDOG["drain_deadline"] = _time.monotonic() + 10.0
+        old2 = _arm_watchdog(12.0)
         try:
-            # cancel leftovers so that the loop closes quietly
             pend = [t for t in asyncio.all_tasks(loop) if not t.done()]
             for t in pend:
                 t.cancel()
             if pend:
                 loop.run_until_complete(asyncio.gather(*pend, return_exceptions=True))
             loop.run_until_complete(loop.shutdown_default_executor())
-        except Exception:
+        except BaseException:  # noqa - WallClockExceeded included: give up on the leftovers
             pass
+        finally:
+            _disarm_watchdog(old2)
+            _WATCHDOG["drain_deadline"] = None
         asyncio.set_event_loop(None)
-        loop.close()
+        try:
+            loop.close()
+        except BaseException:  # noqa
+            pass
 
 
 # ------------------------------------------------------------------------------------------------
